@@ -35,7 +35,7 @@ TRUSTED = [
     'axioms printed by Print Assumptions: the standard-library Reals axioms (ClassicalDedekindReals.sig_not_dec, '
     'sig_forall_dec, functional_extensionality_dep) and Classical_Prop.classic; discrete theorems are closed',
     'translator/py2coq.py: per-element reading of the formulas, comparisons, indices and keyword arguments of '
-    'test_statistic.py, Analysis.calculate_test_statistic and utils/analysis.py (118 kernels of G_stat.v incl. 12 statement-skeleton pins, each pinned by a K_ lemma)',
+    'test_statistic.py, Analysis.calculate_test_statistic and utils/analysis.py (120 kernels of G_stat.v incl. 12 statement-skeleton pins and a count/order pin of the ns-gradient cache producer, each pinned by a K_ lemma)',
     'extraction (ExtrOcamlBasic only) + hand-written OCaml driver ocaml/c12/driver.ml and float record ocaml/common/numf.ml',
     'hand model M_Stat.v of control flow, lookups, keyword binding and error paths, validated by this correspondence',
     'oracles (Section-style premises of the theorems): np.polyfit returns the coefficient list (highest power first); '
@@ -777,10 +777,10 @@ def doc_ab(R, N):
 
 
 def gen_hist_ts_case(ctx, rng):
-    n = rng.choice([1, 2, 3, 5, 10, 25])
+    n = rng.choice([0, 1, 2, 3, 5, 10, 25])
     R = [rng.choice([0.0, 0.05, 0.2, 0.5, 1.0, 1.7, 3.0, 12.0, round(rng.uniform(0, 6), 3)]) for _ in range(n)]
     R2 = [rng.choice([0.0, 0.3, 0.9, 2.5, 7.0, round(rng.uniform(0, 4), 3)]) for _ in range(rng.choice([1, 3, 8]))]
-    return {'kind': 'hist_ts', 'R': R, 'N': n + rng.choice([0, 1, 15, 200]), 'R2': R2, 'N2': len(R2) + rng.choice([0, 4, 50]),
+    return {'kind': 'hist_ts', 'R': R, 'N': n + rng.choice([0, 1, 15, 200] if n > 0 else [1, 15, 200]), 'R2': R2, 'N2': len(R2) + rng.choice([0, 4, 50]),
             'f': rng.choice([[0.5, 0.5], [0.25, 0.75], [1.0, 0.0]]), 'll': rng.choice([0.0, 1.25, -3.0])}
 
 
@@ -818,8 +818,11 @@ def run_hist_ts_case(ctx, case, lines, checks):
         blocks = []
         for o in objs:
             cache = o[1]._cache_nsgrad_i
-            blocks.append(f'S {int(o[1]._tdm.n_selected_events)} {int(o[1]._tdm.n_pure_bkg_events)} '
-                          + hexs(np.array(cache, dtype=np.float64)))
+            if cache is None:             # evaluate() left no cached gradients: the model's callee raises like the real one
+                blocks.append(f'N {int(o[1]._tdm.n_selected_events)} {int(o[1]._tdm.n_pure_bkg_events)}')
+            else:
+                blocks.append(f'S {int(o[1]._tdm.n_selected_events)} {int(o[1]._tdm.n_pure_bkg_events)} '
+                              + hexs(np.array(cache, dtype=np.float64)))
         t = LLHRatioZeroNsTaylorWilksTestStatistic()
         w = WilksTestStatistic()
         # ---- single dataset
@@ -834,7 +837,7 @@ def run_hist_ts_case(ctx, case, lines, checks):
                 bs.append(float(llh.calculate_ns_grad2(ns=0.0)))
                 w1 = float(w(pmm=pmm, log_lambda=ll, fitparam_values=fpv))
                 p1 = UA.calculate_pval_from_trials(grads, 0.0)
-                p1r = UA.calculate_pval_from_trials(Rarr, 1.0, comp_operator='greater_equal')
+                p1r = UA.calculate_pval_from_trials(Rarr, 1.0, comp_operator='greater_equal') if len(R) else None
                 ts.append(float(t(pmm=pmm, log_lambda=ll, fitparam_values=fpv, llhratio=llh, grads=grads)))
                 other = float(llh.calculate_ns_grad2(ns=0.5))          # another argument in between
                 bs.append(float(llh.calculate_ns_grad2(ns=0.0)))
@@ -844,7 +847,9 @@ def run_hist_ts_case(ctx, case, lines, checks):
                 p2 = UA.calculate_pval_from_trials(grads, 0.0)
             except Exception as ex:
                 ctx.violation(site_t, 'raises-' + exc_name(ex) + '-on-repeated-call',
-                              'repeated evaluation for the same fit result raises', case=case, impl=[ts, bs])
+                              f'evaluation no. {len(ts) + 1} of the zero-ns Taylor TS / calculate_ns_grad2 for the fit result ns = 0 of a trial '
+                              f'with {len(R)} selected and {N - len(R)} pure background events raises {exc_name(ex)} directly after evaluate()',
+                              case=case, impl=[ts, bs], predicate='the test statistic can be computed for every fit result')
                 return
             lines.append(f'taylorreal 1 {fhex(ll)} zs | 1 | {hexs(fpv)} | {hexs(grads)} | | {blocks[0]}')
             checks.append((site_t + '(real ZeroSigH0)', case, ['Ok', ts[0]], 1e-12 * abs(ts[0]) if math.isfinite(ts[0]) else 0.0))
@@ -1328,6 +1333,10 @@ def corpus_cases():
     # history probes (seeded C12-3: cache squared in place; seeded C12-4: sorted-trials memo keyed by id/size)
     out.append({'kind': 'hist_ts', 'R': [0.2, 0.5, 1.0, 1.7, 3.0, 0.05, 0.9, 12.0, 0.4, 0.0], 'N': 25,
                 'R2': [0.3, 2.5, 0.9], 'N2': 7, 'f': [0.25, 0.75], 'll': 0.0})
+    # the event selection left no event (n_selected = 0, n_events = 25): a = -1, b = -1/N, TS = N/2 (seeded C12-8: an early
+    # return of the cache producer left the ns-gradient cache unset -> RuntimeError); also as second data set
+    out.append({'kind': 'hist_ts', 'R': [], 'N': 25, 'R2': [0.3, 2.5, 0.9], 'N2': 7, 'f': [0.25, 0.75], 'll': 0.0})
+    out.append({'kind': 'hist_ts', 'R': [0.2, 0.5, 1.0, 1.7], 'N': 9, 'R2': [], 'N2': 4, 'f': [0.5, 0.5], 'll': 0.0})
     # flat likelihood (all S/B = 1, no pure background event): a = b = 0 -> NaN (open finding, hit on every run)
     out.append({'kind': 'hist_ts', 'R': [1.0, 1.0, 1.0], 'N': 3, 'R2': [0.3, 2.5, 0.9], 'N2': 7, 'f': [0.5, 0.5], 'll': 0.0})
     out.append({'kind': 'hist_pval', 'b1': [0, 0, S // 2, S, 0, 3 * S], 'b2': [5 * S, 6 * S, 9 * S, 4 * S, 7 * S, 5 * S],
